@@ -41,15 +41,19 @@ IsPrefix(p, q) == Len(p) <= Len(q) /\ Prefix(q, Len(p)) = p
 
 ----------------------------------------------------------------------------
 \* files of a tree
-EvFile(s, e, t, r) ==
+\* half of the shapes keep their data files in a datatype directory below the subject / session (sub-01/ses-1/eeg/...), as real
+\* datasets do: the files are then up to three levels deep and sidecars may sit in every directory on the way
+HasDataDir(sh) == (sh.nsub + sh.nses + sh.ntask + sh.nrun) % 2 = 1
+EvFileIn(s, e, t, r, dd) ==
   LET full == [n \in {"sub", "ses", "task", "run"} |->
                  IF n = "sub" THEN SubVal[s] ELSE IF n = "ses" THEN SesVal[IF e = 0 THEN 1 ELSE e]
                  ELSE IF n = "task" THEN TaskVal[t] ELSE RunVal[r]] IN
-  [dir |-> IF e = 0 THEN <<"sub-" \o SubVal[s]>> ELSE <<"sub-" \o SubVal[s], "ses-" \o SesVal[e]>>,
+  [dir |-> (IF e = 0 THEN <<"sub-" \o SubVal[s]>> ELSE <<"sub-" \o SubVal[s], "ses-" \o SesVal[e]>>) \o (IF dd THEN <<"eeg">> ELSE <<>>),
    ents |-> IF e = 0 THEN Restrict(full, {"sub", "task", "run"}) ELSE full,
    suffix |-> "events", ext |-> ".tsv", cols |-> {}]
 
-EventsOf(sh) == {EvFile(s, e, t, r) : s \in 1..sh.nsub, e \in (IF sh.nses = 0 THEN {0} ELSE 1..sh.nses),
+EvFile(s, e, t, r) == EvFileIn(s, e, t, r, FALSE)
+EventsOf(sh) == {EvFileIn(s, e, t, r, HasDataDir(sh)) : s \in 1..sh.nsub, e \in (IF sh.nses = 0 THEN {0} ELSE 1..sh.nses),
                                         t \in 1..sh.ntask, r \in 1..sh.nrun}
 
 \* every sidecar the generator may add: any level of the path of some events file, any subset of its entities
@@ -154,7 +158,7 @@ Spec == Init /\ [][Next]_vars
 ----------------------------------------------------------------------------
 \* invariants
 TypeOK == /\ shape \in Shapes /\ decoy \subseteq DecoyKinds
-          /\ \A s \in scs : IsSidecar(s) /\ s.cols # {} /\ s.cols \subseteq Cols /\ Len(s.dir) <= 2
+          /\ \A s \in scs : IsSidecar(s) /\ s.cols # {} /\ s.cols \subseteq Cols /\ Len(s.dir) <= 3
           /\ \A f \in AllFiles : Len(f.dir) <= 3
 
 \* BIDS rule kept by the generator => the chain (hence the merge) is a function of the tree: determinism
